@@ -139,12 +139,9 @@ impl ScannerImpl {
         use std::fs::File;
         for scanner_mode in self.scanner_modes.iter() {
             let title = format!("Compiled DFA {}", scanner_mode.name);
-            let file_name = format!(
-                "{}/{}_{}.dot",
-                target_folder.to_str().unwrap(),
-                prefix,
-                scanner_mode.name
-            );
+            // Join the path instead of formatting it: a folder name that is not valid UTF-8 must not
+            // make the export panic.
+            let file_name = target_folder.join(format!("{}_{}.dot", prefix, scanner_mode.name));
             let mut file = File::create(file_name)?;
             super::dot::compiled_dfa_render(
                 &scanner_mode.dfa,
